@@ -16,12 +16,12 @@ CHECKS.update({
                 text='DirichletBVP2D: the four edge identities for every point of every edge; IBVP1D DD/DN/ND/NN: initial profile for all x, boundary value or HasDerivAt in x at both ends for all t; boundary data derived from one arbitrary smooth field symbol; all real rectangles x0 != x1, y0 != y1; also with ith_unit on a shared 2-output network. Irregular domain: model NdeVerif.Tps (generic scalar: Float in the driver, ℝ in the proofs) with theorems interp_at_control / enforce_at_control (prescribed value at every control point for every network output, given the coefficients solve the captured linear systems), tied to pde.CustomBoundaryCondition by a correspondence on captured systems, rows and random query points, plus the property evaluated at every input control point (star-shaped, U-, L-shaped and same-ray sets).',
                 note='Partial: exactness of np.linalg.solve / conditioning of the thin-plate-spline system is runtime (residual observed each run); Neumann control points are not covered.'),
     'C08': dict(engine='calc', technique=T, design='§7 C08',
-                text='grad/laplacian/div in 1..4 dimensions, curl, vector_laplacian, zero components for omitted coordinates, and the compositions div∘grad, curl∘grad, div∘curl, curl∘curl, laplacian∘laplacian: each traced output equals the textbook expression in partial-derivative atoms of arbitrary field symbols (true partials by D_sound).'),
+                text='Hand model for every number of coordinates (Proofs/C08.lean: gradM/divM/lapM with grad_sound, lap_sound, lapM_eq_div_grad, totality) tied term for term / by evaluation to the traced operators; grad/laplacian/div in 1..4 dimensions, curl, vector_laplacian, zero components for omitted coordinates, and the compositions div∘grad, curl∘grad, div∘curl, curl∘curl, laplacian∘laplacian: each traced output equals the textbook expression in partial-derivative atoms of arbitrary field symbols (true partials by D_sound).'),
     'C09': dict(engine='calc', technique=T, design='§7 C09',
                 text='All 10 spherical/cylindrical operators (22 components): traced output = local-frame component of the Cartesian operator applied to an arbitrary Cartesian field symbol composed with the coordinate map, for r != 0, sin(theta) != 0 (rho != 0). Conversion helpers (traced, tied to reference functions): Cartesian->curvilinear->Cartesian is the identity everywhere, the converse on the principal ranges, documented ranges of r, theta, phi (hand-written Lean proofs over Complex.arg).',
                 ),
     'C10': dict(engine='calc', technique=T, design='§7 C10',
-                text='BundleIVP (value and derivative mode) and BundleDirichletBVP traced per lookup configuration over 4 extra columns (quick: fixed corner cases + seeded sample; thorough: all 675 configuration/mode pairs, names may share a column): row-wise value / HasDerivAt at t0_row (and t1_row) equals the routed parameter, for all networks and all column values (unused columns universally quantified).'),
+                text='BundleIVP (value and derivative mode) and BundleDirichletBVP traced per lookup configuration over 4 extra columns (quick: fixed corner cases + seeded sample; thorough: all 675 configuration/mode pairs, names may share a column, plus negative indices; hand model Proofs/C10.lean (getParam with Python indexing, reference forms, theorems for any number of columns) tied to every traced table by a generated *_is_model theorem): row-wise value / HasDerivAt at t0_row (and t1_row) equals the routed parameter, for all networks and all column values (unused columns universally quantified).'),
     'C11': dict(engine='calc', technique=T + '; hand-written Lean proof of the limit clause over a certificate-checked reference form', design='§7 C11',
                 text='DirichletBVPSpherical two-sided/one-sided, InfDirichletBVPSpherical and the three coefficient-space variants (per column, widths 1,3 quick / 1,2,9,25 thorough): boundary identities for all angles and both orientations; Tendsto to g as r -> infinity for every k > 0 and bounded network output (static analytic proof tied to the traced code by inf_eq_ref).'),
     'C12': dict(engine='calc', technique=T + '; rejection paths observed on the real code', design='§7 C12',
@@ -74,7 +74,7 @@ CHECKS.update({
 CHECKS.update({
     'C17': dict(engine='calc', technique=T + '; explicit rounding bounds for the scipy Legendre coefficients (hand lemma abs_polyEval_le)', design='§7 C17',
                 text='All 25 hard-coded harmonics traced from source: eigenfunctions of the angular Laplacian with eigenvalue -l(l+1), azimuthal order m (d²/dφ² = -m²) and sine/cosine type at φ=0, mutual orthogonality on the sphere (300 pairs, = 0 exactly) and the common normalisation (|∫∫Y²sinθ − π| ≤ 1e-7, 25 theorems) — pinning each column to its documented (l,m) and scale; RealSphericalHarmonics column order; RealFourierSeries terms; HarmonicsLaplacian = operators.spherical_laplacian of the expansion and FourierLaplacian = polar Laplacian for arbitrary coefficient symbols R_k(r) (max_degree 0..2 quick, 0..4 / Fourier 12 thorough); Legendre polynomials within 1e-10 of the exact P_l on [-1,1]; zonal columns = c_l P_l(cos θ) with c_l² within 1e-15 of (2l+1)/(4π); zonal Laplacian = spherical Laplacian minus an explicit residual bounded by 1e-8.',
-                note='Orthogonality: all 300 pairs of the 25 traced harmonics have sphere integral exactly 0, and every squared norm is within 1e-7 of π (the source constants are 9-10 digit decimals, so π holds only up to that rounding) — proved from kernel-checked separations Y = A(θ)·B(φ) and antiderivative certificates (D_sound + fundamental theorem of calculus, Mathlib interval integrals). Legendre/zonal clauses hold up to the explicit rounding bounds of the scipy coefficients.'),
+                note='Fourier clause for every max_degree: hand model Proofs/C17F.lean (term/coeff/fourierLap, fourierLap_eq_polar for any number of columns) tied to the traced columns and operators. Orthogonality: all 300 pairs of the 25 traced harmonics have sphere integral exactly 0, and every squared norm is within 1e-7 of π (the source constants are 9-10 digit decimals, so π holds only up to that rounding) — proved from kernel-checked separations Y = A(θ)·B(φ) and antiderivative certificates (D_sound + fundamental theorem of calculus, Mathlib interval integrals). Legendre/zonal clauses hold up to the explicit rounding bounds of the scipy coefficients.'),
 })
 NOT_YET = {}
 
